@@ -16,7 +16,8 @@ wrapper that ignores or swaps its aggregators visible.
 from __future__ import annotations
 
 import time
-from typing import Any, Dict, List, Sequence, Tuple
+from functools import cached_property
+from typing import Any, Dict, List, NamedTuple, Sequence, Tuple
 
 from mc import boot  # noqa: F401
 
@@ -129,6 +130,10 @@ class MTSMonitor(Monitor):
                 distinct = ~np.isclose(r.sum(-1), r.max(-1)) & ~np.isclose(r.sum(-1), r.mean(-1)) & enabled
                 ex.count("multi_agent_edges_with_sum_max_mean_all_distinct", int(distinct.sum()))
                 ex.count("multi_agent_aggregations", int(enabled.sum()))
+                d = np.asarray(native_ts.discount).astype(np.float64)
+                d = d.reshape(d.shape[:lead] + (-1,))
+                dd = ~np.isclose(d.max(-1), d.min(-1)) & ~np.isclose(d.max(-1), d.sum(-1)) & enabled
+                ex.count("multi_agent_edges_with_discount_max_min_sum_all_distinct", int(dd.sum()))
 
     def on_roots(self, roots: Batch) -> None:
         if getattr(self.ex, "injected_roots", False) or not self.ex.keys:
@@ -220,6 +225,115 @@ def eager_reset_problems(env: Any, key: Any, pairs: Sequence[Any]) -> List[Tuple
     return out
 
 
+# ---------------------------------------------------------------------------------------------
+# a stub multi-agent environment whose per-agent rewards AND discounts are pairwise different, so
+# that every aggregator (sum / max / min / mean / prod) gives a different number: Connector and
+# LBF emit the same discount for every agent, which cannot tell `max` from `min`.
+# ---------------------------------------------------------------------------------------------
+class StubState(NamedTuple):
+    key: Any
+    t: Any
+    x: Any
+
+
+class StubObservation(NamedTuple):
+    t: Any
+    x: Any
+
+
+def _make_stub_class() -> Any:
+    from jumanji import specs
+    from jumanji.env import Environment
+    from jumanji.types import StepType, TimeStep
+
+    class C15Stub(Environment):
+        """Deterministic toy: x' = (3x + a + 1) mod 7; agent i gets reward (i+1)(x'+1)/4 - a and
+        discount ((x'+i) mod 4)/3; LAST at t == time_limit."""
+
+        def __init__(self, num_agents: int = 3, time_limit: int = 3):
+            self.n, self.time_limit = num_agents, time_limit
+            super().__init__()
+
+        def __repr__(self) -> str:
+            return f"C15Stub({self.n}, {self.time_limit})"
+
+        def _obs(self, t: Any, x: Any) -> StubObservation:
+            return StubObservation(t=t, x=x)
+
+        def reset(self, key: Any) -> Any:
+            k1, k2 = jax.random.split(key)
+            x = jax.random.randint(k1, (), 0, 7, jnp.int32)
+            t = jnp.zeros((), jnp.int32)
+            ts = TimeStep(step_type=StepType.FIRST, reward=jnp.zeros((self.n,), jnp.float32),
+                          discount=jnp.ones((self.n,), jnp.float32), observation=self._obs(t, x),
+                          extras={"x_parity": x % 2})
+            return StubState(key=k2, t=t, x=x), ts
+
+        def step(self, state: StubState, action: Any) -> Any:
+            a = jnp.asarray(action, jnp.int32)
+            x = (3 * state.x + a + 1) % 7
+            t = state.t + 1
+            i = jnp.arange(self.n)
+            reward = ((i + 1) * (x + 1)).astype(jnp.float32) / 4.0 - a.astype(jnp.float32)
+            discount = ((x + i) % 4).astype(jnp.float32) / 3.0
+            st = jnp.where(t >= self.time_limit, StepType.LAST, StepType.MID)
+            ts = TimeStep(step_type=st, reward=reward, discount=discount, observation=self._obs(t, x),
+                          extras={"x_parity": x % 2})
+            return StubState(key=state.key, t=t, x=x), ts
+
+        @cached_property
+        def observation_spec(self) -> Any:
+            return specs.Spec(StubObservation, "StubObservationSpec",
+                              t=specs.BoundedArray((), jnp.int32, 0, self.time_limit, "t"),
+                              x=specs.DiscreteArray(7, jnp.int32, "x"))
+
+        @cached_property
+        def action_spec(self) -> Any:
+            return specs.DiscreteArray(2, name="action")
+
+        @cached_property
+        def reward_spec(self) -> Any:
+            return specs.Array((self.n,), jnp.float32, "reward")
+
+        @cached_property
+        def discount_spec(self) -> Any:
+            return specs.BoundedArray((self.n,), jnp.float32, 0.0, 1.0, "discount")
+
+    return C15Stub
+
+
+_STUB = None
+
+
+def namespace() -> Dict[str, Any]:
+    global _STUB
+    if _STUB is None:
+        _STUB = _make_stub_class()
+    ns = dict(catalog.namespace())
+    ns["C15Stub"] = _STUB
+    return ns
+
+
+def run_mts_stub(tier: str, seed: int, model: str = "") -> Dict[str, Any]:
+    del model
+    t0 = time.time()
+    ctor = "C15Stub(3, 3)" if tier == "quick" else "C15Stub(4, 5)"
+    env = eval(ctor, namespace())  # noqa: S307
+    mon = MTSMonitor(env, "stub")
+    ex = Explorer(env, "mts:stub", PID, keys=list(range(8)), monitors=[mon], max_depth=8, max_states=5000,
+                  seed=seed, ctor=ctor, eager_budget_s=3.0, eager_max_paths=2)
+    res = ex.run()
+    for sig, msg in eager_reset_problems(env, jax.random.PRNGKey(0), list(PAIRS) + [EXTRA_EAGER]):
+        ex.violation(sig, "eager: " + msg, 0)
+        res["violations"] = list(ex.violations)
+    res["validated"] = int(res.get("validated", 0)) + mon.eager_done + 1
+    res["family"], res["part"] = "stub", "multi-to-single"
+    for v in res["violations"]:
+        v.replay["kind"] = "mts"
+    res["total_s"] = round(time.time() - t0, 2)
+    return res
+
+
 # quick tier uses the entries flagged True
 MTS_CONFIGS: List[Tuple[str, bool]] = [
     ("connector-3x2-T3", True), ("lbf-5x2x1-T3", True), ("lbf-5-nonorm-pen-T2", True), ("maze-toy-T3", True),
@@ -254,7 +368,7 @@ def run_mts(cfg_name: str, tier: str, seed: int, model: str = "") -> Dict[str, A
 def replay(rdoc: Dict[str, Any]) -> int:
     """Plain eager loop along the recorded path; the wrapper is compared with the native step on
     every step of the path (all aggregator pairs)."""
-    env = eval(rdoc["ctor"], catalog.namespace())  # noqa: S307
+    env = eval(rdoc["ctor"], namespace())  # noqa: S307
     key = jax.random.PRNGKey(int(rdoc["reset_key_seed"]))
     pairs = list(PAIRS) + [EXTRA_EAGER]
     probs = eager_reset_problems(env, key, pairs)
